@@ -316,7 +316,8 @@ impl PeerHandler {
             // Handled like piece announced (again) by peer: manager decides about interest
             BroadCmd::OfferPiece { piece_index, addrs } => {
                 if addrs.contains(&self.connection.addr) {
-                    self.trigger_cmd_recv_have(&Have::new(piece_index)).await?;
+                    self.trigger_cmd_recv_have(&Have::new(piece_index), true)
+                        .await?;
                 }
             }
         }
@@ -418,7 +419,7 @@ impl PeerHandler {
 
     async fn handle_have(&mut self, have: &Have) -> Result<bool, Box<dyn std::error::Error>> {
         have.validate(self.pieces_num)?;
-        self.trigger_cmd_recv_have(have).await?;
+        self.trigger_cmd_recv_have(have, false).await?;
         Ok(true)
     }
 
@@ -595,12 +596,14 @@ impl PeerHandler {
     async fn trigger_cmd_recv_have(
         &mut self,
         have: &Have,
+        offered: bool,
     ) -> Result<(), Box<dyn std::error::Error>> {
         let (resp_tx, resp_rx) = oneshot::channel();
         self.peer_ch
             .send(PeerCmd::RecvHave {
                 addr: self.connection.addr.clone(),
                 piece_index: have.piece_index(),
+                offered,
                 resp_ch: resp_tx,
             })
             .await?;
